@@ -5,6 +5,7 @@ R1  rename-before-overwrite: every output file stream is constructed in
 R3  memory_stream copy/advance agreement (memcpy size == position increment; sum == reserved)
 R4  untrusted lengths cannot overflow the bounds check
 R5  only memcpy-safe types are accepted (compile-fail witness)
+R8  publish after close: a file written through output_stream() is renamed onto its final name only after its stream was closed
 """
 import os
 import subprocess
@@ -386,7 +387,35 @@ def r7(F, rep):
     r.run()
 
 
+def r8(F, rep):
+    rep.rule("C11-R8", "publish after close: where a function writes a file through proxy->output_stream(T) and then renames T "
+                       "onto another name, close_output_stream(T) lies on every path from the open to the rename -- a rename "
+                       "before the close publishes a file whose contents are still in the stream buffer (a crash there leaves "
+                       "an empty or truncated state and no previous generation)")
+    n = 0
+    for f in F.funcs.values():
+        if "/src/" not in f.file or f.body is None or f.cls == "colvarproxy_io":
+            continue
+        res = X.const_locals(f)
+        for r in X.calls(f):
+            if X.callee_name(r) != "rename_file" or len(X.call_args(r)) < 2:
+                continue
+            src = X.key(X.call_args(r)[0], f)
+            opens = [c for c in X.calls(f) if X.callee_name(c) == "output_stream" and X.call_args(c) and X.key(X.call_args(c)[0], f) == src]
+            if not opens:
+                continue
+            n += 1
+            closes = [c for c in X.calls(f) if X.callee_name(c) == "close_output_stream" and X.call_args(c) and X.key(X.call_args(c)[0], f) == src]
+            ok = bool(closes) and all(not f.cfg.can_reach(o, r, avoiding=closes) for o in opens)
+            rep.add("C11-R8", "%s|%s" % (f.q, X.re_strip(src)), f.loc(r), "%s renames `%s` onto `%s`; its stream is closed on every path from output_stream() to the rename: %s" % (
+                f.q, X.re_strip(src), X.re_strip(X.key(X.call_args(r)[1], f)), ok), ok,
+                detail="between the rename and the close the final name holds only what the stream has flushed so far", func=f.q)
+    if n < 1:
+        raise AnalysisBroken("C11-R8: no write-then-rename sequence found (colvarbias_meta::write_replica_state_file expected)")
+
+
 def run(F, rep, tier):
+    r8(F, rep)
     r6(F, rep)
     r7(F, rep)
     r1(F, rep)
